@@ -21,6 +21,16 @@ CHECKS = {
         text="All 34992 combinations of two descriptions over {2 concrete values, wildcard} per field, eventgroup sets and ids are checked against a reference matcher written from the statement and against the laws (symmetry, wildcard monotonicity, find/offer duality, conversion round trips, for_service); random full-range values and wildcard neighbours on top.",
         note="Trusted: reference matcher. The representativeness of the small domain rests on the code comparing fields only for equality with each other and the wildcard constants (the random tier probes this).",
     ),
+    "C02": dict(
+        technique="property-based testing: encode/decode round trip + independent-decoder differential + either-error-or-faithful oracle on generated SD messages (Hypothesis), fixed boundary cases (runs of 15/16/17/31/255, 255/256/270 shared options)",
+        text="Generated SD messages with shared, overlapping, partially overlapping, suffix and tail runs over pools of up to 310 distinct options go through the send_sd pipeline (assign_option_indexes + build); the bytes are decoded by the independent codec and by the library and every entry must come back with exactly its own runs; unrepresentable messages must raise; representable ones must not; identical runs must be shared.",
+        note="Trusted: harness/wire.py. 'Error' = any exception from assign_option_indexes()/build(). The 4-bit counter is generated in range only.",
+    ),
+    "C18": dict(
+        technique="property-based testing: differential stream-reader vs datagram-decoder under generated segmentations (Hypothesis) + exhaustive single/double cut positions for short streams",
+        text="Generated message streams (with corrupted header fields and truncation) are fed to an asyncio.StreamReader in generated chunkings while SOMEIPHeader.read / SOMEIPReader.read run concurrently on the virtual loop; results are compared message by message and at the terminating condition with repeated SOMEIPHeader.parse on the concatenation. All single and double cut positions are enumerated for four short streams.",
+        note="Trusted: virtual loop, asyncio.StreamReader. The datagram decoder is the reference named by the statement (C01 ties it to the independent codec).",
+    ),
 }
 ALL = ["C%02d" % i for i in range(1, 21)]
 NOT_APPLICABLE = {p: "check not built yet in this revision (in progress); the technique applies" for p in ALL if p not in CHECKS}
